@@ -18,14 +18,19 @@ CONSTANTS ThreshC, ThreshS, \* packets after which the client / server starts a 
 
 Sides == {"c", "s"}
 Other(x) == IF x = "c" THEN "s" ELSE "c"
-Thresh(x) == IF x = "c" THEN ThreshC ELSE ThreshS
 
 VARIABLES s, lbl
 vars == <<s, lbl>>
 view == s
 
-Init ==
-    /\ s = [ kc |-> [x \in Sides |-> TRUE],      \* _kex_complete
+\* th: re-key limit of each side and asz: what one application packet adds to the
+\* counter (rekey_bytes / pktlen in the code; 1 packet in the exhaustive model).  They
+\* are part of the state only so that a batch of recorded traces with different limits
+\* can be validated by one TLC run (Transport/RekeyTrace.tla).
+InitState(thc, ths, asz) ==
+           [ th |-> [x \in Sides |-> IF x = "c" THEN thc ELSE ths],
+             asz |-> asz,
+             kc |-> [x \in Sides |-> TRUE],      \* _kex_complete
              ks |-> [x \in Sides |-> FALSE],     \* _kexinit_sent
              kexing |-> [x \in Sides |-> FALSE], \* self._kex is set
              se |-> [x \in Sides |-> 1],         \* epoch of the keys used for sending
@@ -39,6 +44,9 @@ Init ==
              delivered |-> [x \in Sides |-> <<>>], \* app ids received BY x
              nkex |-> 0,
              err |-> FALSE ]
+
+Init ==
+    /\ s = InitState(ThreshC, ThreshS, 1)
     /\ lbl = <<"init">>
 
 P(t, id, ep) == [t |-> t, id |-> id, ep |-> ep]
@@ -55,10 +63,10 @@ SendKexinit(st, x) ==
 
 \* send_packet for one application packet: re-key trigger, then send or defer
 SendApp(st, x, id) ==
-    LET trig == st.kc[x] /\ Thresh(x) > 0 /\ st.cnt[x] >= Thresh(x) /\ st.nkex < MaxKex
+    LET trig == st.kc[x] /\ st.th[x] > 0 /\ st.cnt[x] >= st.th[x] /\ st.nkex < MaxKex
         s1 == IF trig THEN [SendKexinit(st, x) EXCEPT !.ks[x] = TRUE] ELSE st
     IN IF s1.kc[x]
-       THEN [Emit(s1, x, <<<<"APP", id>>>>) EXCEPT !.cnt[x] = @ + 1]
+       THEN [Emit(s1, x, <<<<"APP", id>>>>) EXCEPT !.cnt[x] = @ + st.asz]
        ELSE [s1 EXCEPT !.deferred[x] = Append(@, id)]
 
 \* _send_deferred_packets: each held packet goes through send_packet again
